@@ -34,7 +34,13 @@ CONSTANTS
     MaxElems,   \* 0: only single-output entries; k: also multi-output entries with 1..k elements
     SaveAsSet,  \* subset of {"none", "file", "dir"}
     Modes,      \* corruption modes explored
-    MayFail,    \* BOOLEAN: components that raised are part of the archive
+    MayFail,    \* BOOLEAN: components that did not produce a value are part of the archive
+    OutcomeSet, \* how such a component ended: subset of {"content", "cmd", "timeout", "crash", "skip"}
+                \* (ContentException, CalledProcessError, TimeoutException, any other exception, SkipComponent)
+    BackedSet,  \* subset of BOOLEAN: TRUE = the datasource implements a registry point (the spec is what is
+                \* persisted), FALSE = a stand-alone datasource (persisted under its own name)
+    RecordMode, \* "component": a failure is filed under what is persisted (specified) | "points-only": only under
+                \* registry points (exists so that TLC can show that ErrorsPersisted is able to fail)
     MaxFaults,  \* at most this many corrupted entries
     PoolSet,    \* subset of BOOLEAN: Hydration is given a thread pool (the elements of a multi-output value are
                 \* then serialised concurrently, in any completion order)
@@ -44,6 +50,7 @@ CONSTANTS
 AllKinds == {"text", "raw", "command", "cfile", "ccmd", "datasource"}
 CmdKinds == {"command", "ccmd"}               \* the kinds that carry a command and arguments (Reading, notes/C11.md)
 AllModes == {"deleted", "truncated", "nonjson", "unknown", "shape", "datagone"}
+FailOutcomes == {"content", "cmd", "timeout", "crash"}        \* "failed"; "skip" is not a failure
 
 VARIABLES
     phase,      \* "collect" | "corrupt" | "load" | "done"
@@ -87,6 +94,8 @@ LinesOK(orig, got) ==
 NoArgs      == [shape |-> "none", v |-> <<>>]
 Elem(ls, cmd, args) == [lines |-> ls, cmd |-> cmd, args |-> args]
 
+NoValue(o, b) == [kind |-> "none", multi |-> FALSE, failed |-> o \in FailOutcomes, outcome |-> o, backed |-> b,
+                  saveas |-> "none", elems |-> <<>>]
 LineSet  == {<<>>} \cup {<<a>> : a \in Atoms}
 RECURSIVE SeqsUpTo(_, _)
 SeqsUpTo(S, n) == IF n = 0 THEN {<<>>} ELSE SeqsUpTo(S, n - 1) \cup {Append(q, x) : q \in SeqsUpTo(S, n - 1), x \in S}
@@ -100,14 +109,13 @@ ArgsOf(k, c, j, multi) ==
 
 SaveAsOf(k) == IF k \in {"cfile", "ccmd"} THEN {"none"} ELSE SaveAsSet
 EntrySpace(c) ==
-    { [kind |-> k, multi |-> FALSE, failed |-> FALSE, saveas |-> sa,
+    { [kind |-> k, multi |-> FALSE, failed |-> FALSE, outcome |-> "ok", backed |-> b, saveas |-> sa,
        elems |-> <<Elem(ls, CmdOf(k, c, 1), ArgsOf(k, c, 1, FALSE))>>]
-        : k \in Kinds, sa \in SaveAsSet, ls \in Contents } \cup
-    { [kind |-> k, multi |-> TRUE, failed |-> FALSE, saveas |-> sa,
+        : k \in Kinds, sa \in SaveAsSet, ls \in Contents, b \in BackedSet } \cup
+    { [kind |-> k, multi |-> TRUE, failed |-> FALSE, outcome |-> "ok", backed |-> b, saveas |-> sa,
        elems |-> [j \in 1..Len(lss) |-> Elem(lss[j], CmdOf(k, c, j), ArgsOf(k, c, j, TRUE))]]
-        : k \in Kinds, sa \in SaveAsSet \ {"file"}, lss \in (SeqsUpTo(Contents, MaxElems) \ {<<>>}) } \cup
-    (IF MayFail THEN {[kind |-> "datasource", multi |-> FALSE, failed |-> TRUE, saveas |-> "none", elems |-> <<>>]}
-     ELSE {})
+        : k \in Kinds, sa \in SaveAsSet \ {"file"}, lss \in (SeqsUpTo(Contents, MaxElems) \ {<<>>}), b \in BackedSet } \cup
+    (IF MayFail THEN {NoValue(o, b) : o \in OutcomeSet, b \in BackedSet} ELSE {})
 Applicable(e) == e.saveas \in SaveAsOf(e.kind)
 
 (* relative location recorded by the serializer                             *)
@@ -135,7 +143,16 @@ NoFlight == [c |-> 0, todo |-> {}, fin |-> <<>>]
 Absent == [present |-> FALSE, multi |-> FALSE, elems |-> <<>>]
 
 -----------------------------------------------------------------------------
-NoEntry == [kind |-> "none", multi |-> FALSE, failed |-> FALSE, saveas |-> "none", elems |-> <<>>]
+NoEntry == [kind |-> "none", multi |-> FALSE, failed |-> FALSE, outcome |-> "ok", backed |-> FALSE, saveas |-> "none",
+            elems |-> <<>>]
+
+(* Is the failure of e on record under the key that is persisted?  dr files every other exception under the     *)
+(* component and its registry points; datasource.invoke files ContentException / CalledProcessError /           *)
+(* TimeoutException under the registry points, or under the component itself when it implements none.           *)
+Recorded(e) == e.failed /\ (RecordMode = "component" \/ e.backed \/ e.outcome = "crash")
+Persisted(e, c) == IF e.outcome = "ok" THEN DocOf(e, c)
+                   ELSE IF Recorded(e) THEN DocOf(e, c)
+                   ELSE NoDoc                               \* nothing to write: no results, no errors
 
 Init ==
     /\ phase = "collect" /\ pos = 1
@@ -157,7 +174,7 @@ DehydrateWith(e) ==
               /\ UNCHANGED <<data, meta, pos, phase>>
          ELSE /\ entries' = [entries EXCEPT ![c] = e]
               /\ data' = data \cup {[rel |-> RelOf(e, c, j), file |-> Join(e.elems[j].lines)] : j \in DOMAIN e.elems}
-              /\ meta' = [meta EXCEPT ![c] = DocOf(e, c)]
+              /\ meta' = [meta EXCEPT ![c] = Persisted(e, c)]
               /\ pos' = pos + 1
               /\ phase' = IF pos = N THEN "corrupt" ELSE phase
               /\ UNCHANGED inflight
